@@ -323,7 +323,7 @@ func (i *localIndexScan) ExecuteVectorized(ctx context.Context) ([]*vectorized.R
 		mergeCap = 0
 		limitRows = math.MaxUint32
 	} else if i.maxElementSize > 0 {
-		limitRows = uint32(i.maxElementSize)
+		limitRows = logical.SaturatingUint32(i.maxElementSize)
 	}
 
 	pipeline, buildErr := vstream.BuildStreamMergePipeline(
